@@ -392,3 +392,6 @@ Bn("benign_extra_wakeups", "redundant job-thread wake-up after every received TP
 Bn("benign_eager_session_cleanup", "J1939-21: send session removed in the EndOfMsgACK handler's job pass without waiting (deadline already now) - reorder of two assignments",
    ("j1939/j1939_21.py", "            self._snd_buffer[buffer_hash]['state'] = self.SendBufferState.TRANSMISSION_FINISHED\n            self._snd_buffer[buffer_hash]['deadline'] = time.time()\n            self.__job_thread_wakeup()\n        elif control_byte == self.ConnectionMode.BAM:",
     "            self._snd_buffer[buffer_hash]['deadline'] = time.time()\n            self._snd_buffer[buffer_hash]['state'] = self.SendBufferState.TRANSMISSION_FINISHED\n            self.__job_thread_wakeup()\n        elif control_byte == self.ConnectionMode.BAM:"))
+
+M("add_timer_raises_for_zero", ["C01", "C11"], "add_timer rejects a zero delay (an API call with valid arguments raises)",
+  ("j1939/electronic_control_unit.py", "        d = {\n            'delta_time': delta_time,", "        if delta_time <= 0:\n            raise ValueError('delta_time must be positive')\n        d = {\n            'delta_time': delta_time,"))
